@@ -214,6 +214,16 @@ def step (st : State) (w : List String) : State × String :=
         | _, _ => (st, "sent=none err")
       else (st, "bad-op")
     | _, _, _, _ => (st, "bad-op")
+  -- `msg doq lib=<outcome of the library for the message with Id 0>`: the DoQ writer sends that frame, id 0
+  | ["msg", "doq", libo] =>
+    match kv "lib" libo with
+    | some lo =>
+      if lo.startsWith "ok/" then
+        match (lo.drop 3).toString.toNat? with
+        | some n => if n ≤ 65535 then (st, s!"sent=ok/{n} id=0") else (st, "sent=none")
+        | none => (st, "bad-op")
+      else if lo == "panic" then (st, "panic") else (st, "sent=none")
+    | none => (st, "bad-op")
   | ["msg", "new", _, _] => ({ st with last := none }, "unmodelled")
   -- `msg write <directPack> <internal> lib=<library outcome>`: the model's `writeMsg` on the last skeleton
   | ["msg", "write", dp, int, libo] =>
